@@ -3,8 +3,12 @@
 package webrtc
 
 import (
+	"context"
+
 	"github.com/aperturerobotics/bifrost/crypto"
 	"github.com/aperturerobotics/bifrost/peer"
+	"github.com/aperturerobotics/bifrost/signaling"
+	"github.com/pion/datachannel"
 	"github.com/sirupsen/logrus"
 )
 
@@ -19,4 +23,78 @@ func VerifSessionTrackerFacts(le *logrus.Entry, localPeerID peer.ID, remotePeerI
 	w := &WebRTC{le: le, peerID: localPeerID}
 	_, s := w.newSessionTracker(remotePeerIDStr)
 	return s.key, s.offerer, s.peerID, s.peerPub
+}
+
+// VerifTracker is a view of one session tracker of a transport.
+type VerifTracker struct {
+	// Key is the string the tracker is keyed by.
+	Key string
+	// Offerer is the role of the local side.
+	Offerer bool
+	// PeerID is the peer ID handed to the Quic session constructors and to the signaling session.
+	PeerID peer.ID
+	// PeerPub is the public key outgoing signals are encrypted to.
+	PeerPub crypto.PubKey
+
+	t *sessionTracker
+}
+
+func verifTracker(t *sessionTracker) *VerifTracker {
+	return &VerifTracker{Key: t.key, Offerer: t.offerer, PeerID: t.peerID, PeerPub: t.peerPub, t: t}
+}
+
+// VerifAddSessionTrackerRef runs addSessionTrackerRef inside the transport's critical section (as
+// DialPeer and the incoming signal handler do) and returns the tracker it yields.
+func VerifAddSessionTrackerRef(w *WebRTC, peerIDStr string) (tkr *VerifTracker, existed bool, release func(), err error) {
+	w.bcast.HoldLock(func(broadcast func(), getWaitCh func() <-chan struct{}) {
+		ref, t, ex, e := w.addSessionTrackerRef(peerIDStr)
+		existed, err = ex, e
+		if t != nil {
+			tkr = verifTracker(t)
+		}
+		if ref != nil {
+			release = ref.Release
+		}
+	})
+	return tkr, existed, release, err
+}
+
+// VerifSessionTrackers returns a view of every session tracker the transport currently has.
+func VerifSessionTrackers(w *WebRTC) []*VerifTracker {
+	var out []*VerifTracker
+	for _, k := range w.sessionTrackers.GetKeysWithData() {
+		out = append(out, verifTracker(k.Data))
+	}
+	return out
+}
+
+// VerifIncomingSessionKeys returns the keys of the incomingSessions table.
+func VerifIncomingSessionKeys(w *WebRTC) []string {
+	var out []string
+	w.bcast.HoldLock(func(broadcast func(), getWaitCh func() <-chan struct{}) {
+		for k := range w.incomingSessions {
+			out = append(out, k)
+		}
+	})
+	return out
+}
+
+// ExecuteXmitSignal runs the tracker's executeXmitSignal for one signal over sess.
+func (v *VerifTracker) ExecuteXmitSignal(ctx context.Context, sig *WebRtcSignal, sess signaling.SignalPeerSession) error {
+	return v.t.executeXmitSignal(ctx, &outgoingSignal{sess: sess, sig: sig, sentCh: make(chan struct{})})
+}
+
+// ExecuteLink runs the tracker's executeLink over the given (already open) data channel.
+func (v *VerifTracker) ExecuteLink(ctx context.Context, dcRwc datachannel.ReadWriteCloser) error {
+	return v.t.executeLink(ctx, dcRwc)
+}
+
+// Execute runs the tracker's main routine.
+func (v *VerifTracker) Execute(ctx context.Context) error {
+	return v.t.execute(ctx)
+}
+
+// RxSignal is the channel the incoming signal handler pushes decoded signals to.
+func (v *VerifTracker) RxSignal() <-chan *WebRtcSignal {
+	return v.t.rxSignal
 }
